@@ -23,10 +23,10 @@ fn mk(cfg: &str, steps: &str, fin: &str, origin: &str) -> Case {
     }
 }
 
-/// class key of a panic.  N1, N2, N3, N4, N9 are repaired.  Open: N12 — after a failed row write the stream
-/// writer keeps `index == line_len` with `to_write == 0`; the next, narrower frame slices
-/// `curr_buf[..line_len][index..]` (keyed by the panic MESSAGE; line numbers move).  Everything else is
-/// unexpected and keyed by source line.
+/// class key of a panic.  N1, N2, N3, N4, N9 and N12 are repaired: no panic is expected any more.  The key of
+/// N12 (after a failed row write the stream writer kept `index == line_len` with `to_write == 0`; the next,
+/// narrower frame sliced `curr_buf[..line_len][index..]`; repaired by c724280) is kept, by panic MESSAGE, so that
+/// a regression shows up under the same key; everything else is keyed by source line.
 fn panic_class(_case: &Case, msg: &str) -> String {
     let loc = msg.rsplit(" @ ").next().unwrap_or("?").to_string();
     if msg.contains("range start index") && loc.contains("encoder.rs") {
@@ -277,7 +277,8 @@ fn directed() -> Vec<Case> {
     v.push(mk("w=2,h=2,c=0,d=8,an=3:0", "I01020304", "X1[w05060708,sd7:9,so2,sb1,sz1:1,sp1:1,w09]F", "directed"));
     v.push(mk("w=2,h=2,c=0,d=8,an=3:0,val=1", "S0[w01020304,sd300:2,so1,sb1,rp,rz,sz2:1,sp0:1,w0506]F;sd1:1;I0708", "F", "directed"));
     v.push(mk("w=2,h=2,c=0,d=8,an=2:0,sep=1", "S3[w01020304,w05060708]D", "X4[so2,sb1,w090a0b0c]F", "directed"));
-    // N12 (open): a sink failure during a flush in the middle of the last row, then a narrower frame
+    // N12 (repaired by c724280; regression case, swept over every offset: expected outcome = no panic):
+    // a sink failure during a flush in the middle of the last row, then a narrower frame
     v.push(mk("w=2,h=1,c=0,d=8,an=2:0,comp=0,filt=0", "-", "X4[sz1:1,w01,f,w02,f,w03]F", "directed"));
     // sessions that end in the middle of an image (N10 / remainder of N11: open)
     v.push(mk(g, "S64[w0102]D;I01020304", "F", "directed"));
